@@ -77,6 +77,14 @@ tasks:
     cmds:
       - defer: '"$VERIF_ARGVDUMP" "{{.O}}" {{shellQuote .V}}'
       - 'true'
+  afterloop:
+    vars: {WORDS: 'p q'}
+    cmds:
+      - for: {var: WORDS, as: X}
+        cmd: 'true'
+      - for: [k1, k2]
+        cmd: 'true'
+      - '"$VERIF_ARGVDUMP" "$OUT" {{shellQuote .X}} {{shellQuote .ITEM}}'
 `
 
 func readArgv(path string) ([]string, bool) {
@@ -214,6 +222,29 @@ func c19VarUnit() *Unit {
 			g2, ok2 := readArgv(out + ".2")
 			if rc != 0 || !ok1 || !ok2 || len(g1) != 1 || len(g2) != 1 || g1[0] != pair[0] || g2[0] != pair[1] {
 				add(vlab.V("C19", "quoted_value_not_verbatim", "deferred:second_call", fmt.Sprintf("task twice X=%q Y=%q: the deferred commands received %s and %s (status %d %q)", pair[0], pair[1], short(g1), short(g2), rc, firstN(se, 120))), args)
+			}
+		}
+		// a variable whose name a for loop of the task used as its iterator means the given value
+		// again after the loop
+		for _, pair := range [][2]string{{"a b", "c'd"}, {"$(id)", "*"}, {"x=y", "--"}} {
+			os.Remove(out)
+			args := []string{"afterloop", "X=" + pair[0], "ITEM=" + pair[1]}
+			_, se, rc := RunCLI(dir, []string{"OUT=" + out, "VERIF_ARGVDUMP=" + os.Getenv("VERIF_ARGVDUMP")}, "", args...)
+			n++
+			got, ok := readArgv(out)
+			if rc != 0 || !ok || len(got) != 2 || got[0] != pair[0] || got[1] != pair[1] {
+				add(vlab.V("C19", "quoted_value_not_verbatim", "after_loop_with_same_iterator_name", fmt.Sprintf("task afterloop X=%q ITEM=%q: the command after the loops received %s (status %d %q)", pair[0], pair[1], short(got), rc, firstN(se, 120))), args)
+			}
+		}
+		// a value that comes from the process environment instead of a NAME=value argument
+		for _, val := range []string{"plain", "a=b", "-Dkey=va lue", "http://h/p?a=1&b=2", "=", "a b", "$(id)", "tail="} {
+			os.Remove(out)
+			args := []string{"quoted"}
+			_, se, rc := RunCLI(dir, []string{"OUT=" + out, "VERIF_ARGVDUMP=" + os.Getenv("VERIF_ARGVDUMP"), "X=" + val}, "", args...)
+			n++
+			got, ok := readArgv(out)
+			if rc != 0 || !ok || len(got) != 1 || got[0] != val {
+				add(vlab.V("C19", "quoted_value_not_verbatim", "from_environment:"+tokClass(val), fmt.Sprintf("X=%q in the environment, task quoted: the command received %s (status %d %q)", val, short(got), rc, firstN(se, 120))), args)
 			}
 		}
 		// NAME=value is split at the first '=' only
